@@ -181,3 +181,67 @@ def _(self: Obj(Mbi_MixinCtrInitVector, _ctr_init_vector=Optional[Bytes(16)], _C
     modifies(self._ctr_init_vector)
     sample_with(lambda rnd: {"self": _mk(Mbi_MixinCtrInitVector, _ctr_init_vector=rnd.choice([None, bytes(16)]), search_paths=None),
                              "config": {"CtrInitVector": rnd.choice([None, "0x000102030405060708090a0b0c0d0e0f"])}})
+
+
+# ---- HAB: the data encryption key of an encrypted image is drawn inside the call unless the configuration asks to reuse one -----------------
+from spsdk.image.hab.hab_config import CommandsConfig, HabConfig  # noqa: E402
+from spsdk.image.hab.segments import CsfHabSegment  # noqa: E402
+from spsdk.utils.misc import find_file, get_abs_path, write_file  # noqa: E402
+
+
+@assumed("spsdk.image.hab.hab_config:CommandsConfig.contains", reason="configuration front end: whether the BD file has the command")
+def _(self: Obj(CommandsConfig), key: Opaque()) -> bool:
+    pure()
+
+
+@assumed("spsdk.image.hab.hab_config:CommandsConfig.get_command_params", reason="configuration front end: the options the BD file gives for the Install Secret Key command")
+def _(self: Obj(CommandsConfig), command: Opaque()) -> DictOf(SecretKey_Length=OneOf(128, 192, 256), SecretKey_ReuseDek=Range(0, 1), SecretKey_Name=Const("dek.bin")):
+    ensures(result["SecretKey_ReuseDek"] == ghost_const("hab_reuse_dek", Range(0, 1)))   # the option value, visible to the caller's contract
+    pure()
+
+
+@assumed("spsdk.utils.misc:find_file", reason="file system: the path of an existing file, or - with raise_exc=False - an empty string when there is none; "
+         "a key file left by an earlier build may exist")
+def _(file_path: Opaque(), use_cwd: Opaque(), search_paths: Opaque(), raise_exc: bool) -> OneOf("", "/project/dek.bin"):
+    may_raise(SPSDKError)
+    ensures(raise_exc == False or result != "")   # noqa: E712
+    pure()
+
+
+@assumed("spsdk.utils.misc:get_abs_path", reason="path arithmetic")
+def _(file_path: Opaque(), base_dir: Opaque()) -> Const("/project/dek.bin"):
+    pure()
+
+
+@assumed("spsdk.utils.misc:write_file", reason="file system: writes the bytes given")
+def _(data: Opaque(), path: Opaque(), mode: Opaque(), encoding: Opaque()) -> int:
+    pure()
+
+
+@contract("spsdk.image.hab.segments:CsfHabSegment.get_dek_from_config", replay=False)
+def _(config: Obj(HabConfig, commands=Obj(CommandsConfig)), search_paths: Const(["/project"])) -> Optional[bytes]:
+    may_raise(SPSDKError)
+    # whenever a key is returned and the configuration did not ask to reuse one (the assumed get_command_params answers are the two cases), it is
+    # a key drawn inside this call - whatever files an earlier build left behind
+    ensures(implies(result is not None and ghost_const("hab_reuse_dek", Range(0, 1)) != 1, fresh_in_call(result)),
+            label="dek-is-drawn-in-this-call-unless-reuse-is-requested")
+    sample_with(lambda rnd: _sample_dek(rnd))
+
+
+def _sample_dek(rnd):
+    """Native cases: a project directory that may already hold a key file of an earlier build; reuse not requested."""
+    import os
+    import tempfile
+
+    from spsdk.image.hab.hab_config import CommandConfig, CommandOptions
+    from spsdk.image.hab.commands.commands_enum import SecCommand
+
+    d = tempfile.mkdtemp(prefix="vf-c17-")
+    if rnd.random() < 0.6:
+        with open(os.path.join(d, "dek.bin"), "wb") as f:
+            f.write(bytes(16))
+    cmds = CommandsConfig()
+    cmds.append(CommandConfig(index=SecCommand.INSTALL_SECRET_KEY.tag, params=CommandOptions({"SecretKey_Name": "dek.bin", "SecretKey_Length": 128})))
+    cfg = object.__new__(HabConfig)
+    cfg.commands = cmds
+    return {"config": cfg, "search_paths": [d]}
